@@ -36,6 +36,7 @@ inductive SE
   | vector (e : SE)                       -- vector(e), e a scalar
   | neg (e : SE)
   | bin (op : Op) (isBool : Bool) (l r : SE)
+  | fn (keeps : Bool) (e : SE)            -- a function of a vector: `sort` (keeps the values) or `abs` (does not)
 deriving Repr, Inhabited
 
 /-- `Source.Returns` is a vector -/
@@ -45,6 +46,7 @@ def isVec : SE → Bool
   | .vector _ => true
   | .neg e => isVec e
   | .bin _ _ l r => isVec l || isVec r
+  | .fn _ _ => true
 
 structure St where
   always : Bool     -- AlwaysReturns
@@ -76,6 +78,9 @@ def static : SE → St
         { side with dead := (fold op a.num b.num a.dead).2,
                     num := if op.isCmp then side.num else (fold op a.num b.num a.dead).1 }
       else side
+  -- `parseCall` (after fix 5cb81d1): what was known about the argument's number is not known about the function's,
+  -- unless the function only sorts or relabels
+  | .fn keeps e => let s := static e; if keeps then s else { s with known := false, num := 0 }
 
 inductive Val
   | s (k : Int)             -- scalar
@@ -106,6 +111,9 @@ def eval : SE → Val
     | .s k => .s (-k)
     | .v x => .v (x.map fun k => -k)
   | .bin op isBool l r => evalBin op isBool (eval l) (eval r)
+  | .fn keeps e => if keeps then eval e else match eval e with
+    | .s k => .s (Int.natAbs k)
+    | .v x => .v (x.map fun k => (Int.natAbs k : Int))
 
 def closed : SE → Bool
   | .num _ => true
@@ -113,11 +121,21 @@ def closed : SE → Bool
   | .vector e => closed e
   | .neg e => closed e
   | .bin _ _ l r => closed l && closed r
+  | .fn _ e => closed e
+
+/-- every function in the expression keeps the values it is given -/
+def valueKeeping : SE → Bool
+  | .fn keeps e => keeps && valueKeeping e
+  | .vector e => valueKeeping e
+  | .neg e => valueKeeping e
+  | .bin _ _ l r => valueKeeping l && valueKeeping r
+  | _ => true
 
 def boolFree : SE → Bool
   | .bin _ isBool l r => !isBool && boolFree l && boolFree r
   | .vector e => boolFree e
   | .neg e => boolFree e
+  | .fn _ e => boolFree e
   | _ => true
 
 /-- what the PromQL parser accepts: `vector` takes a scalar, a comparison between two scalars needs `bool` -/
@@ -125,6 +143,7 @@ def wellTyped : SE → Bool
   | .vector e => !isVec e && wellTyped e
   | .neg e => wellTyped e
   | .bin op isBool l r => wellTyped l && wellTyped r && (isVec l || isVec r || !op.isCmp || isBool)
+  | .fn _ e => isVec e && wellTyped e
   | _ => true
 
 end Pint.StaticFlow
